@@ -399,6 +399,9 @@ def judge_matching(v, ctx, vw, res, cls0, want=None, sub_prefix=""):
         if not el < er:
             v.label(f"exact-solution-violates:{name}")
             return
+        nonlocal cls
+        if a["ref"].vp < 1e-3 and "/vp<1e-3" not in cls:
+            cls += "/vp<1e-3"   # the exact v+ lies below findMatching's own lower bracket end vBracketLow
         slack = sum(a[k] for k in slack_key)
         v.info[f"slack_{name}"] = [lhs - rhs, slack]
         v.label(f"inequality-within-tolerance:{name}")
@@ -733,6 +736,11 @@ def check_cut(case, v):
         cuts["high"] = (v2, m2.Tp, m2)
     first = min(cuts, key=lambda k: cuts[k][0])
     vfirst, Tfirst, mm = cuts[first]
+    if ctx0.fam == "cubic" and not mm.Tm < meta["T_valid"][1] * (1.0 - 1e-3):
+        # the broken phase of the cubic family ends (genuinely) at T_valid[1]; that end is reached before, or
+        # together with, the constructed one: not the situation this case was meant to construct
+        v.label("cut:beyond-natural-end")
+        return v
     both_close = phase == "both" and abs(cuts["low"][0] - cuts["high"][0]) < CUT_MARGIN
     if both_close:
         v.label("cut:both-close")
